@@ -176,13 +176,61 @@ def external_checks(data):
     return out
 
 
+def export_reg(tp, **over):
+    """export a registry testcase with the settings its metadata declares (mirrors tests/t_generator.make_test_function:
+    double precision variant, layout flags, normalization mode, opset, input/output names); `over` overrides"""
+    import jax
+    import jax.numpy as jnp
+    import numpy as np
+    from jax2onnx import to_onnx
+    dp = bool(over.pop("enable_double_precision", tp.get("_enable_double_precision_test_setting", False)))
+    fn = tp["callable"]
+    if hasattr(fn, "instantiate"):
+        prev = bool(jax.config.jax_enable_x64)
+        if prev != dp:
+            jax.config.update("jax_enable_x64", dp)
+        try:
+            fn = fn.instantiate()
+        finally:
+            if prev != dp:
+                jax.config.update("jax_enable_x64", prev)
+    shapes, vals, dts = tp.get("input_shapes"), tp.get("input_values"), tp.get("input_dtypes")
+    if shapes is not None:
+        spec = []
+        for i, sh in enumerate(shapes):
+            sh = tuple(sh) if isinstance(sh, (list, tuple)) else (sh,)
+            if dts:
+                dt = dts[i]
+                if dp and np.issubdtype(np.dtype(dt), np.floating):
+                    dt = jnp.float64
+                spec.append(jax.ShapeDtypeStruct(sh, dt))
+            else:
+                spec.append(sh)
+    elif vals is not None:
+        spec = []
+        for v in vals:
+            a = np.array(v)
+            spec.append(jax.ShapeDtypeStruct(a.shape, jnp.float64 if (dp and np.issubdtype(a.dtype, np.floating)) else a.dtype))
+    else:
+        import inspect
+        if inspect.signature(fn).parameters:
+            raise ValueError("no input spec")
+        spec = []
+    kw = dict(input_params=tp.get("input_params", {}), model_name=tp["testcase"], opset=tp.get("opset_version", 23),
+              enable_double_precision=dp, inputs_as_nchw=tp.get("inputs_as_nchw"), outputs_as_nchw=tp.get("outputs_as_nchw"),
+              input_names=tp.get("input_names"), output_names=tp.get("output_names"),
+              normalization_mode=tp.get("normalization_mode", "auto"))
+    kw.update(over)
+    return to_onnx(fn, spec, **kw)
+
+
 def export_job(kind, ident, over):
-    """-> (key, ModelProto)"""
+    """-> ModelProto"""
     import exports
     over = dict(over)
     as_ir = over.get("return_mode") == "ir"
     if kind == "reg":
-        m = exports.export_tp(exports.registry_items()[ident], **over)
+        m = export_reg(exports.registry_items()[ident], **over)
     elif kind == "extra":
         m = exports.export_extra(ident, **over)
     else:
@@ -203,7 +251,7 @@ def job_key(kind, ident):
 def _worker(job):
     """job = (kind, ident, overrides, cfg) -> dict"""
     kind, ident, over, cfg = job
-    res = {"job": [kind, ident, over], "cfg": cfg, "key": None, "bytes": None, "error": None, "ext": None}
+    res = {"job": [kind, ident, over], "cfg": cfg, "key": None, "bytes": None, "error": None, "ext": None, "term": None, "stats": None}
     try:
         res["key"] = job_key(kind, ident)
     except Exception as e:  # noqa
@@ -212,14 +260,25 @@ def _worker(job):
         return res
     try:
         m = export_job(kind, ident, over)
-        res["bytes"] = m.SerializeToString()
+        data = m.SerializeToString()
+        res["bytes"] = len(data)
     except Exception as e:  # noqa
         res["error"] = _short(e)
         return res
     try:
-        res["ext"] = external_checks(res["bytes"])
+        res["ext"] = external_checks(data)
     except Exception as e:  # noqa
         res["ext"] = {"harness": _short(e)}
+    try:        # conversion for the Coq validator + statistics happen here, so that tensor payloads never travel
+        import onnx
+        import onnx2coq
+        mm = onnx.ModelProto.FromString(data)
+        res["term"] = onnx2coq.model_term(mm)
+        res["stats"] = model_stats(mm)
+    except Exception as e:  # noqa
+        res["ext"] = {"harness": "onnx2coq: " + _short(e)}
+        res["term"] = None
+        res["stats"] = None
     return res
 
 
@@ -264,24 +323,27 @@ CORE_PROGRAMS = [("extra", "x:nested_onnx_functions"), ("extra", "x:two_function
 def plan_jobs(total, tier, seed, newest, newest_ort):
     import exports
     quick = tier == "quick"
-    n_default = 100 if quick else None
-    n_alt = 28 if quick else 170
+    n_default = 100 if quick else 1500
+    n_alt = 25 if quick else 120
     jobs = []
     for i in exports.select_indices(total, n_default, seed):
         jobs.append(("reg", i, {}, "default"))
     progs = [("extra", n) for n in exports.extra_names()] + [("c03", n) for n in PROGRAM_NAMES]
     for k, n in progs:
         jobs.append((k, n, {}, "default"))
-    alts = [("opset21", {"opset": 21}), (f"opset{newest_ort}", {"opset": newest_ort}),
-            ("f64", {"enable_double_precision": True}), ("ir", {"return_mode": "ir"})]
+    # registry cases carry their own double-precision variants (`*_f64` testcases, ~37% of the registry) and declare
+    # where f64 is unsupported (run_only_f32_variant), so double precision is FORCED only on the hand-written programs
+    alts = [("opset21", {"opset": 21}, True), (f"opset{newest_ort}", {"opset": newest_ort}, True),
+            ("f64", {"enable_double_precision": True}, False), ("ir", {"return_mode": "ir"}, True)]
     if newest != newest_ort:
-        alts.insert(2, (f"opset{newest}", {"opset": newest}))
+        alts.insert(2, (f"opset{newest}", {"opset": newest}, True))
     if not quick:
-        alts.insert(1, ("opset23", {"opset": 23}))   # the default of most registry cases: thorough tier only
-    for j, (cfg, over) in enumerate(alts):
-        for i in exports.select_indices(total, n_alt, seed + 7 * (j + 1)):
-            jobs.append(("reg", i, over, cfg))
-        for k, n in (CORE_PROGRAMS if quick else progs):
+        alts.insert(1, ("opset23", {"opset": 23}, True))   # the default of most registry cases: thorough tier only
+    for j, (cfg, over, on_registry) in enumerate(alts):
+        if on_registry:
+            for i in exports.select_indices(total, n_alt, seed + 7 * (j + 1)):
+                jobs.append(("reg", i, over, cfg))
+        for k, n in (progs if (not quick or not on_registry) else CORE_PROGRAMS):
             jobs.append((k, n, over, cfg))
     for k, n in FOUR_D:
         for cfg, over in (("nchw_in", {"inputs_as_nchw": [0]}), ("nchw_out", {"outputs_as_nchw": [0]}),
@@ -302,6 +364,9 @@ def run_jobs(tier, seed, newest, newest_ort):
     with ProcessPoolExecutor(procs, mp_context=get_context("spawn"), initializer=_init_worker) as ex:
         total = ex.submit(_count, 0).result()
         jobs = plan_jobs(total, tier, seed, newest, newest_ort)
+        if os.environ.get("C03_MAX_JOBS"):          # development aid only
+            step = max(1, len(jobs) // int(os.environ["C03_MAX_JOBS"]))
+            jobs = jobs[::step]
         # interleave so that heavy neighbours do not land in one chunk
         order = sorted(range(len(jobs)), key=lambda i: (i % procs, i))
         res = list(ex.map(_worker, [jobs[i] for i in order], chunksize=max(1, len(jobs) // (procs * 6))))
@@ -342,15 +407,12 @@ def model_stats(m):
 
 
 # =========================================================================== Coq evaluation of the validator
-RES_RE = re.compile(r'\((true|false), (true|false), (None|Some "((?:[^"]|"")*)")\)')
+RES_RE = re.compile(r'\((true|false), (true|false), (None|Some "((?:[^"]|"")*)"(?:%string)?)\)')
 
 
-def coq_validate(ctx, name, models):
-    """models: list of ModelProto -> list of (wf, table_ok, first_bad|None) (None entries when Coq failed)"""
-    import onnx2coq
-    terms = []
-    for m in models:
-        terms.append(onnx2coq.model_term(m))
+def coq_validate(ctx, name, terms):
+    """terms: list of Gallina omodel terms (tools/onnx2coq.model_term) -> list of (wf, table_ok, first_bad|None)
+    (None entries when Coq failed)"""
 
     def render(chunk, off):
         txt = ""
@@ -666,7 +728,7 @@ def names_side_conditions(ctx):
         return info
     ctx.oblige(f"tie:side-conditions-evaluated-in-coq({len(cbs)} context bases, {len(bbs)} builder bases)", True, "tie",
                "evaluation succeeded; the verdicts are coverage data, a failed side condition is not a violation")
-    pairs = re.findall(r'\("((?:[^"]|"")*)", "((?:[^"]|"")*)"\)', m.group(4))
+    pairs = re.findall(r'\("((?:[^"]|"")*)"(?:%string)?, "((?:[^"]|"")*)"(?:%string)?\)', m.group(4))
     info.update({"no_clash_holds": m.group(1) == "true", "slash_free_holds": m.group(2) == "true",
                  "cross_family_disjoint_holds": m.group(3) == "true", "offending_pairs": pairs[:20]})
     return info
@@ -677,6 +739,14 @@ UNKNOWN_OP_RES = [re.compile(r"No Op registered for (\w+) with domain_version of
                   re.compile(r"No Schema registered for (\w+) with domain_version of (\d+)"),
                   re.compile(r"(?:ai\.onnx|):?(\w+)\(-?\d+\) is not a registered function/op")]
 ORT_OPSET_RE = re.compile(r"ValidateOpsetForDomain|is under development and support for this is limited|only guarantees support for models stamped with")
+# the CPU execution provider has no kernel for this (op, element type), e.g. Conv/Asin/AveragePool on tensor(double):
+# a capability limit of the installed runtime, the model itself is valid (checker and strict inference accept it)
+# (also: ORT's own QuickGeluFusion rewrites x*Sigmoid(x) on tensor(double) into com.microsoft.QuickGelu, for which it has no kernel)
+ORT_KERNEL_RE = re.compile(r"NOT_IMPLEMENTED : (?:Could not find an implementation for|Failed to find kernel for)")
+
+
+def ort_tool_limit(msg):
+    return bool(msg) and bool(ORT_OPSET_RE.search(msg) or ORT_KERNEL_RE.search(msg))
 
 
 def unknown_op(msg):
@@ -696,6 +766,7 @@ def reason_class(tool, msg):
              ("opset-import", r"No opset import|No Opset registered"),
              ("type-inference", r"TypeInferenceError|Type Error|type inference failed|Type '.*' of input parameter|INVALID_GRAPH.*Type"),
              ("shape-inference", r"ShapeInferenceError|Incompatible dimensions|shape inference|Inferred shape"),
+             ("attribute-value", r"must be '.*' or '.*', got"),
              ("function", r"function|Function"),
              ("not-implemented", r"NOT_IMPLEMENTED|Could not find an implementation"),
              ("attribute", r"[Aa]ttribute"),
@@ -733,6 +804,12 @@ def run(ctx):
         "validator on the exported models, not by the naming theorems)",
         "a failed side condition of the naming theorems is reported in coverage, never as a violation; only a real duplicate "
         "or undefined name in an exported model is (through wf_model)",
+        "two capability limits of the installed onnxruntime are not held against an export (counted in coverage.per_tool): it "
+        "refuses every model stamped with an opset newer than it supports (the onnx newest opset is still exported and checked by "
+        "wf_model, onnx.checker and strict inference), and its CPU provider has no kernel for some (op, double) pairs "
+        "(NOT_IMPLEMENTED for Conv/Asin/AveragePool on tensor(double); checker and strict inference accept those models)",
+        "registry testcases are exported with the settings their metadata declares (mirror of tests/t_generator: f64 variants, "
+        "layout flags, normalization mode, names); double precision is not forced on cases the authors mark run_only_f32_variant",
     ]
     common.build_props(ctx, "C03", GEN_UNITS)
     ctx.coverage["phase_s"] = {"build": round(time.time() - t0, 1)}
@@ -762,10 +839,13 @@ def run(ctx):
         return ctx
     ctx.coverage["phase_s"]["export_and_external"] = round(time.time() - t2, 1)
     t3 = time.time()
-    exported = [r for r in results if r["bytes"] is not None]
+    exported = [r for r in results if r["bytes"] is not None and r["term"] is not None]
     rejected = [r for r in results if r["bytes"] is None]
-    models = [onnx.ModelProto.FromString(r["bytes"]) for r in exported]
-    coq_res, problems = coq_validate(ctx, "c03_wf", models)
+    for r in results:
+        if r["bytes"] is not None and r["term"] is None:
+            ctx.oblige(f"harness:onnx2coq:{case_id(r)}", False, "tie", str((r["ext"] or {}).get("harness")))
+    models = exported
+    coq_res, problems = coq_validate(ctx, "c03_wf", [r["term"] for r in exported])
     ctx.oblige(f"coq:validator-evaluated-on-every-export({len(models)} models)", not problems, "tie", "\n".join(problems)[:1800])
     ctx.coverage["phase_s"]["coq_validation"] = round(time.time() - t3, 1)
 
@@ -779,13 +859,14 @@ def run(ctx):
     table_bad = []
     grouped_unknown = collections.defaultdict(list)
     ort_opset_skips = 0
+    no_kernel = collections.Counter()
     samples = []
     for r in rejected:
         cfg_rejected[r["cfg"]] += 1
     for r, m, cr in zip(exported, models, coq_res):
         cid = case_id(r)
         per_cfg[r["cfg"]] += 1
-        st = model_stats(m)
+        st = r["stats"]
         depth_hist[st["depth"]] += 1
         n_fun_defs += st["functions"]
         n_calls_seen += st["calls"]
@@ -818,6 +899,11 @@ def run(ctx):
                 ort_opset_skips += 1            # this onnxruntime does not load the declared (unreleased) opset at all
                 per_tool["ort_skipped_unsupported_opset"] += 1
                 continue
+            if tool == "ort" and ORT_KERNEL_RE.search(msg):
+                per_tool["ort_skipped_no_cpu_kernel"] += 1
+                mk = re.search(r"(?:implementation|kernel) for ([\w.]+)\((\d+)\)", msg)
+                no_kernel[mk.group(1) if mk else "?"] += 1
+                continue
             per_tool[f"{tool}_rejects"] += 1
             op = unknown_op(msg)
             if op is not None:
@@ -828,7 +914,7 @@ def run(ctx):
         else:
             for tool in ("checker", "strict_inference", "ort"):
                 msg = ext.get(tool)
-                if msg is None or (tool == "ort" and ORT_OPSET_RE.search(msg)):
+                if msg is None or (tool == "ort" and ort_tool_limit(msg)):
                     continue
                 cls = reason_class(tool, msg)
                 gap = cr is not None and cr[0] and cls in ("ssa", "topological", "graph-output", "opset-import", "function")
@@ -861,7 +947,8 @@ def run(ctx):
                      "c03_programs": len({r["key"] for r in results if r["job"][0] == "c03"})},
         "configs": dict(per_cfg), "per_tool": dict(per_tool),
         "opsets": {"onnx_newest": newest, "newest_loadable_by_installed_onnxruntime": newest_ort,
-                   "ort_skipped_unsupported_opset": ort_opset_skips},
+                   "ort_skipped_unsupported_opset": ort_opset_skips,
+                   "ort_skipped_no_cpu_kernel_by_op": dict(no_kernel)},
         "nesting_depth_histogram": dict(sorted(depth_hist.items())),
         "function_definitions_seen": n_fun_defs, "function_calls_seen": n_calls_seen,
         "nested_graphs_seen": n_sub, "nested_graphs_owned_by_function_bodies": n_fsub,
@@ -885,17 +972,18 @@ def replay(path):
     except Exception as e:  # noqa
         print("export now raises (rejected loudly):", _short(e))
         return 0
+    import onnx2coq
     data = m.SerializeToString()
     ext = external_checks(data)
     for t, v in ext.items():
         print(f"{t}: {'accepts' if v is None else 'REJECTS ' + v[:400]}")
     ctx = common.Ctx("C03", "replay", 0)
     try:
-        res, problems = coq_validate(ctx, "c03_replay", [onnx.ModelProto.FromString(data)])
+        res, problems = coq_validate(ctx, "c03_replay", [onnx2coq.model_term(onnx.ModelProto.FromString(data))])
     finally:
         ctx.cleanup()
     print("wf_model / table_ok / wf_first_bad:", res[0], problems)
-    bad_ext = any(v is not None and not (t == "ort" and ORT_OPSET_RE.search(v)) for t, v in ext.items())
+    bad_ext = any(v is not None and not (t == "ort" and ort_tool_limit(v)) for t, v in ext.items())
     bad_wf = res[0] is None or not res[0][0]
     print("case", key, "still failing" if (bad_ext or bad_wf) else "passes now")
     return 1 if (bad_ext or bad_wf) else 0
